@@ -27,6 +27,14 @@ a package constant as a default (NFFT=default_NFFT), a dict default that only fe
 accepted (all fail-closed, self-tested).  Comparators: coq/Model/LoopIRVec.v; generators: props/_loopir_vec.py; theorem for arma2psd:
 coq/Proofs/LoopIRArma2psd.v.
 
+T10: arma.arma_estimate (comparator coq/Model/LoopIRArma.v) and lpc.lpc (coq/Model/LoopIRLpc.v) are translated too; generators props/_loopir_arma.py.
+arma_estimate embeds CORRELATION, arcovar_marple and ma; `res = arcovar(Y.copy(), P)` (scipy lstsq) is an ORACLE call bound to a NAME: the number of
+values it returns is read from arcovar's source, `res` is a tuple name bound by calls of DIFFERENT lengths (5 and 2) and may be read only as
+res[<literal below the shortest length>].  lpc: numpy.fft.ifft -> [EIfft] (idft of Theory/Dft.v over the same hidden twiddle parameter),
+`from numpy import real`, tools.nextpow2 -> the primitive [ENextPow2] (accepted only while the text of nextpow2 is `res = ceil(log2(x)); return
+res.astype('int')` over numpy's ceil / log2; its argument is translated in integer arithmetic), 2**nextpow2(..) -> [EPow2], and `x.resize(N+1)` on the
+parameter the spec declares the function's own (`own_params`: the effect on the caller's array is not modelled).
+
 The translator is fail-closed: an `ast` node outside the recognised subset aborts the translation of that function
 (`Untranslatable`), which the tie reports through ctx.broken as "translation of <fn> failed: <node>".  Nothing is
 skipped silently; what is ignored is listed here: docstrings / bare string statements, `logging.<f>(...)` statements
@@ -3308,7 +3316,7 @@ EXTRA_MODULES.update({nm: 'Spectrum.Model.LoopIRWrap' for nm in ('aryule', 'ma',
 # T10: arma_estimate (comparator coq/Model/LoopIRArma.v, generator props/_loopir_arma.py)
 from props import _loopir_arma as _arma       # noqa: E402
 GENERATORS['arma_estimate'] = _arma.gen_arma_estimate
-EXACT_BUDGET['arma_estimate'] = (44, 260)
+EXACT_BUDGET['arma_estimate'] = (38, 260)
 EXTRA_MODULES['arma_estimate'] = 'Spectrum.Model.LoopIRArma'
 VEC_GENERATORS['lpc'] = _arma.gen_lpc
 EXACT_BUDGET['lpc'] = (40, 200); FLOAT_BUDGET['lpc'] = (60, 400)
@@ -4174,7 +4182,10 @@ TRUSTED_LINE = ("loop-IR tie: the translator tools/props/_loopir.py (Python ast 
                 "translated as well: numpy.fft.fft / rfft are the DFT specification of Theory/Dft.v over a hidden twiddle parameter (exact runs with tw1/tw2/tw4, binary64 runs with "
                 "a harness table), Window samples / numpy.pi / xcorr / pylab_rms_flat are oracle inputs; T8: `run program = model` is a theorem also for minvar (whole function, no side condition), "
                 "the 1-D speriodogram (window of the data's length, non-integer flags) and CORRELOGRAMPSD (both correlation back ends on the comparator's domain); T9: rlevinson for ALL orders "
-                "(every input; supersedes the order-1 statement above) and, by composition, poly2ac, poly2rc, rc2ac")
+                "(every input; supersedes the order-1 statement above) and, by composition, poly2ac, poly2rc, rc2ac; T10 (exact evaluation on sampled inputs, no theorem): arma_estimate "
+                "(CORRELATION, arcovar_marple, ma embedded; the scipy-lstsq solver arcovar an ORACLE call = hidden parameters) and lpc (numpy.fft.ifft = the inverse DFT specification "
+                "through the same hidden twiddle parameter, tools.nextpow2 an IR primitive accepted only while its text is the expected one, the in-place resize of lpc's parameter "
+                "modelled inside the function only)")
 
 
 def loopir_tie(ctx, names):
